@@ -128,7 +128,7 @@ def gen_t1(rng):
 def gen_t3(rng, big=False):
     ln = rng.choice([0, 1, 5, 16, 17, 40, 100, 300] + ([5000] if big else []))
     nmaxb_ok = (ln + 15) // 16
-    nmaxb = rng.choice([nmaxb_ok, nmaxb_ok, nmaxb_ok + 3, max(0, nmaxb_ok - 1), 0, 1, 65535])
+    nmaxb = rng.choice([nmaxb_ok, nmaxb_ok, nmaxb_ok + 3, max(0, nmaxb_ok - 1), 0, 1, 65535 if big else 300])
     ln_attr = rng.choice([ln] * 6 + [nmaxb * 16, nmaxb * 16 + 1, ln + 160, 0xFFFFFF if rng.random() < 0.3 else 4000])
     nbr = rng.choice([1, 2, 4, 4, 12, 15, 0, 16, 121, 255, rng.randrange(256)])
     csum = rng.choice([None] * 9 + [rng.randrange(65536)])
@@ -369,7 +369,7 @@ def run(ck):
     corpus(R)
     R.flush("witness corpus (section 9 findings F12-F15 and the new ones)")
     if T:
-        for kind, gen, budget in (("t3", gen_t3, 20000), ("t4", gen_t4, 12000)):
+        for kind, gen, budget in (("t3", gen_t3, 2 * BOUND["t3"] + 10), ("t4", gen_t4, 12000)):
             for i in range(40):
                 rsp, d = gen(rng, big=True)
                 R.case(rsp, d, budget)
